@@ -28,7 +28,7 @@ def ref_key(op: Dict[str, Any], handle_contract: Dict[str, str]) -> Optional[Tup
         c = handle_contract.get(op["h"])
         return ("build", c, tuple(op["path"])) if c else None
     if kind == "cli":
-        return ("cli", op["c"], tuple(op["argv"]), json.dumps([op.get("files", []), op.get("contracts", [])], sort_keys=True))
+        return ("cli", op["c"], tuple(op["argv"]), json.dumps([op.get("files", []), op.get("contracts", []), op.get("fname")], sort_keys=True))
     if kind == "group":
         # one reference per detector: the canonical config analysed by that detector alone
         return ("group", op["canon"], op["dets"][0] if op.get("dets") else "")
@@ -79,8 +79,10 @@ class RefStore:
             ]
             tgt = 1
         elif kind == "cli":
-            files, contracts = json.loads(key[3])
+            files, contracts, fname = json.loads(key[3])
             ops = [{"op": "cli", "c": key[1], "argv": list(key[2]), "files": files, "contracts": contracts, "envelope": True}]
+            if fname:
+                ops[0]["fname"] = fname
             tgt = 0
         elif kind == "group":
             g = dict(self.group_ops[key[1]])
